@@ -22,6 +22,9 @@ EXPLANATION = (
     'propagated: a raising feeder signals on_error and stops, the five routed entry points return the error value of '
     'their role, a failed response future becomes an ERROR frame (shared with C10.a). Not decided: that requests on '
     'other streams are afterwards served correctly (a run-time fact).')
+EXPLANATION_ADDED = ('(g) an unsolicited LEASE cannot stall requests (shared C14.f); send_error puts exactly one ERROR frame with the stream id given; a request on a stream id in use is rejected before anything is registered (shared C13.d).')
+EXPLANATION = EXPLANATION.replace(' Not decided', ' ' + EXPLANATION_ADDED + ' Not decided', 1) \
+    if ' Not decided' in EXPLANATION else EXPLANATION + ' ' + EXPLANATION_ADDED
 ASSUMPTIONS = COMMON_ASSUMPTIONS
 
 
